@@ -1,6 +1,7 @@
 package rules
 
 import (
+	"go/constant"
 	"fmt"
 	"go/token"
 	"go/types"
@@ -1291,6 +1292,44 @@ func nodeNilGuard(c *core.Ctx, fn, trav *ssa.Function) {
 							}
 						}
 					}
+				}
+			}
+		}
+		// ... or by a boolean that can be true only when it was computed on the non-nil side
+		// (`found := v != nil && cmp == EQ; if found { .. v.val .. }`: a phi of false and of values from safe blocks)
+		isSafe := func(b *ssa.BasicBlock) bool {
+			for _, sb := range safe {
+				if sb == b || sb.Dominates(b) {
+					return true
+				}
+			}
+			return false
+		}
+		for round := 0; round < 3; round++ {
+			for _, b := range fn.Blocks {
+				if len(b.Instrs) == 0 {
+					continue
+				}
+				iff, isIf := b.Instrs[len(b.Instrs)-1].(*ssa.If)
+				if !isIf {
+					continue
+				}
+				phi, isPhi := iff.Cond.(*ssa.Phi)
+				if !isPhi || len(b.Succs[0].Preds) != 1 || isSafe(b.Succs[0]) {
+					continue
+				}
+				all := len(phi.Edges) > 0
+				for i, e := range phi.Edges {
+					if k, isK := e.(*ssa.Const); isK && k.Value != nil && !constant.BoolVal(k.Value) {
+						continue
+					}
+					if i < len(phi.Block().Preds) && isSafe(phi.Block().Preds[i]) {
+						continue
+					}
+					all = false
+				}
+				if all {
+					safe = append(safe, b.Succs[0])
 				}
 			}
 		}
